@@ -28,6 +28,28 @@ Theorem C12_disjoint : forall nthreads sz0 sched,
   cidx (compIdx st) < 64 /\ length (chunks st) = nbuf.
 Proof. exact disjoint_all_schedules. Qed.
 
+(* The regime made static: T goroutines, every request at most B bytes with (T+2)*B < 2 GiB (e.g. 62 goroutines and
+   requests below 32 MiB, or 6 goroutines and requests below 256 MiB), initial size at most 1 GiB.  Then EVERY schedule
+   is in the no-carry regime, so the conclusions of C12_disjoint hold with no hypothesis about the run.  (Invariant:
+   offset <= 2 GiB + the adds of goroutines that overshot the current chunk and have not yet retried + at most one
+   orphaned add of a goroutine that panicked at the 64-chunk limit.) *)
+Theorem C12_static_regime : forall T B sz0 sched,
+  sz0 <= max_alloc -> (N.of_nat T + 2) * B < 2 * max_alloc -> Forall (start_le B) sched ->
+  nocarry_run (alloc_new T sz0) sched.
+Proof. exact static_nocarry. Qed.
+
+Theorem C12_disjoint_static : forall T B sz0 sched,
+  sz0 <= max_alloc -> (N.of_nat T + 2) * B < 2 * max_alloc -> Forall (start_le B) sched ->
+  let st := agrun (alloc_new T sz0) sched in
+  ForallOrdPairs gdisj (handed st) /\
+  Forall (in_chunk st) (handed st) /\
+  (forall t g, grant_of (get_pc st t) = Some g -> Forall (gdisj g) (handed st)) /\
+  (forall t1 t2 g1 g2, t1 <> t2 -> grant_of (get_pc st t1) = Some g1 -> grant_of (get_pc st t2) = Some g2 ->
+     gdisj g1 g2) /\
+  (forall t e, get_pc st t = TDone (OPanic e) -> e = PTooBig \/ e = PLimit64) /\
+  cidx (compIdx st) < 64 /\ length (chunks st) = nbuf.
+Proof. exact disjoint_static. Qed.
+
 Theorem C12_disjoint_means_no_overlap : forall g1 g2, gdisj g1 g2 -> ~ overlaps g1 g2.
 Proof. exact gdisj_not_overlaps. Qed.
 
